@@ -72,7 +72,7 @@ def late_names(spec):
     mods = spec['modules']
     late = [it[1] for m in mods for it in m['items'] if it[0] == 'tryimport' and not any(x_['name'] == it[1] for x_ in mods)]
     late += [it[1] + '.' + it[2] for m in mods for it in m['items']
-             if it[0] == 'tryfrom' and not any(x_['name'] == it[1] + '.' + it[2] for x_ in mods)]
+             if it[0] in ('tryfrom', 'tryfromsub') and not any(x_['name'] == it[1] + '.' + it[2] for x_ in mods)]
     late += [m['name'] + '.' + a for m in mods if m.get('init') for a in (m['iface'].get('attrs') or [])
              if not any(x_['name'] == m['name'] + '.' + a for x_ in mods)]
     return late
@@ -86,13 +86,23 @@ def gen_edit(r, spec, state, allow_backward=True):
     dt = r.choice(dts)
     late = [it[1] for m in mods for it in m['items'] if it[0] == 'tryimport' and not any(x_['name'] == it[1] for x_ in mods)]
     late += [it[1] + '.' + it[2] for m in mods for it in m['items']
-             if it[0] == 'tryfrom' and not any(x_['name'] == it[1] + '.' + it[2] for x_ in mods)]
+             if it[0] in ('tryfrom', 'tryfromsub') and not any(x_['name'] == it[1] + '.' + it[2] for x_ in mods)]
     # a sub-module that takes the name of an attribute the package already defines
     late += [m['name'] + '.' + a for m in mods if m.get('init') for a in (m['iface'].get('attrs') or [])
              if not any(x_['name'] == m['name'] + '.' + a for x_ in mods)]
+    dirs = state.setdefault('dirs', [])
+    pending = [d for d in dirs if d in late]
+    if pending and 0.12 <= x < 0.3:
+        # the directory that appeared earlier becomes a package (or is shadowed by a module of that name)
+        mod = late_module(pending[0], 1, init=r.random() < 0.85)
+        return {'op': 'create', 'newmod': mod, 'dt_ms': dt}, {'modules': mods + [mod]}
     if x < 0.12 and late:
         nm = r.choice(late)
-        mod = late_module(nm, 1, init=r.random() < 0.4)
+        if '.' not in nm and nm not in dirs and r.random() < 0.35:
+            # the directory of a future package appears first, with a module in it but without __init__.py
+            dirs.append(nm)
+            return {'op': 'create_file', 'module': nm, 'rel': nm + '/zqin.py', 'text': 'zqin_%s = 1\n' % nm, 'dt_ms': dt}, spec
+        mod = late_module(nm, 1, init=r.random() < (0.85 if nm in dirs else 0.4))
         return {'op': 'create', 'newmod': mod, 'dt_ms': dt}, {'modules': mods + [mod]}
     if x < 0.18 and state['created'] < 2:
         state['created'] += 1
@@ -114,7 +124,10 @@ def gen_edit(r, spec, state, allow_backward=True):
     if x < 0.40 and state['history'].get(m['name']):
         old = r.choice(state['history'][m['name']])
         new = {'modules': mods[:idx] + [old] + mods[idx + 1:]}
-        return {'op': 'revert', 'module': m['name'], 'newmod': old, 'dt_ms': dt}, new
+        op = {'op': 'revert', 'module': m['name'], 'newmod': old, 'dt_ms': dt}
+        if allow_backward and r.random() < 0.2:
+            op['reuse'] = r.random()    # restored together with an old modification time (rsync -t, tar x)
+        return op, new
     nm = G.mutate_module(r, spec, idx)
     if r.random() < 0.05 and not m.get('init'):
         # a save in the middle of typing: the file does not parse (a fresh project sees the same broken file)
@@ -126,7 +139,10 @@ def gen_edit(r, spec, state, allow_backward=True):
     if nm['version'] <= top:
         nm = _reversion(r, spec, idx, top + 1)
     new = {'modules': mods[:idx] + [nm] + mods[idx + 1:]}
-    return {'op': 'rewrite', 'module': m['name'], 'newmod': nm, 'dt_ms': dt}, new
+    op = {'op': 'rewrite', 'module': m['name'], 'newmod': nm, 'dt_ms': dt}
+    if allow_backward and r.random() < 0.2:
+        op['reuse'] = r.random()        # the file gets one of its older modification times back
+    return op, new
 
 
 def _reversion(r, spec, idx, version):
@@ -159,6 +175,29 @@ def gen_case(seed, i, mode='main'):
                 state['history'].setdefault(op['module'], []).append(old)
             ops.append(op)
             last_edit = op.get('module') or (op.get('newmod') or op['newmods'][-1])['name']
+            if op['op'] == 'create_file' and r.random() < 0.6:
+                # the usual way a package comes into being while the editor is open: directory and first module,
+                # a look at it, then the __init__.py, another look
+                nm = op['module']
+                inside = r.random() < 0.5
+                for step in range(2):
+                    q = G.gen_request(r, cur, uid='q%d' % nreq, origin=nm)
+                    if inside:
+                        # the buffer being edited lives in that directory and imports its neighbour relatively
+                        # ("not a package" until the __init__.py exists)
+                        q = {'kind': q['kind'], 'file': nm + '/zqmain_rel.py', 'position': [2, 5] if q['kind'] != 'lint' else None,
+                             'source': 'from . import zqin\nzqin.zqin_%s\n' % nm if q['kind'] != 'location' else
+                                       'from .zqin import zqin_%s\nzr = zqin_%s\n' % (nm, nm)}
+                        if q['kind'] == 'location':
+                            q['position'] = [2, 6 + len('zqin_' + nm)]
+                    nreq += 1
+                    ops.append({'op': 'request', 'req': {'kind': q['kind'], 'source': q['source'], 'position': q['position'],
+                                                         'file': q['file'], 'indirect': q.get('indirect', False)}})
+                    if step == 0:
+                        mod = late_module(nm, 1, init=True)
+                        cur = {'modules': cur['modules'] + [mod]}
+                        ops.append({'op': 'create', 'newmod': mod, 'dt_ms': r.choice(DTS_MS)})
+                continue
             if not (j == 0 and r.random() < 0.5):
                 continue
         origin = last_edit if (last_edit and r.random() < 0.75) else None
@@ -356,17 +395,20 @@ class History(object):
         self.faults = {}
         self.probes = {'edit_landed_inside_request': 0, 'edited_module_reached_indirectly': 0, 'mtime_moved_backwards': 0,
                        'subsecond_step': 0, 'request_after_edit_compared': 0, 'create_after_failed_import': 0,
-                       'edit_of_unloaded_module': 0}
+                       'edit_of_unloaded_module': 0, 'package_directory_before_init': 0}
         self.log = prng.Log()
+        self.dir_stamps = {}
         self.loaded = set()
         self.mtimes = {}
 
     def fault(self, k, n=1):
         self.faults[k] = self.faults.get(k, 0) + n
 
-    def write(self, mod, dt_ms):
+    def write(self, mod, dt_ms, reuse=None):
         path = os.path.join(self.root, G.relpath(mod))
-        stamp = self.clock.stamp(path, dt_ms)
+        stamp = self.clock.stamp(path, dt_ms, reuse)
+        if reuse is not None and self.clock.reused:
+            self.faults['mtime_returns_to_an_older_value'] = self.clock.reused
         prev = self.mtimes.get(path)
         if prev is not None:
             if stamp < prev:
@@ -375,7 +417,22 @@ class History(object):
             if abs(stamp - prev) < 10 ** 9:
                 self.probes['subsecond_step'] += 1
         self.mtimes[path] = stamp
+        new = not os.path.exists(path)
         G.write_module(self.root, mod, stamp)
+        if new:
+            self.touch_dirs(path, stamp)
+
+    def touch_dirs(self, path, stamp):
+        """A new directory entry changes the modification time of the directory: that time, too, comes from the
+        simulated clock (directories created on the way get the same stamp)."""
+        d = os.path.dirname(path)
+        while len(d) >= len(self.root):
+            was_new = d not in self.dir_stamps
+            self.dir_stamps[d] = stamp
+            os.utime(d, ns=(stamp, stamp))
+            if not was_new:
+                break           # an existing directory got a new entry: its parents do not change
+            d = os.path.dirname(d)
 
     def apply_edit(self, op, accessed=None):
         k = op['op']
@@ -395,10 +452,19 @@ class History(object):
         self.fault('edit_' + k)
         if k == 'touch':
             mod = self.current[op['module']]
-            self.write(mod, op['dt_ms'])
+            self.write(mod, op['dt_ms'], op.get('reuse'))
         elif k in ('rewrite', 'revert'):
             self.current[op['module']] = op['newmod']
-            self.write(op['newmod'], op['dt_ms'])
+            self.write(op['newmod'], op['dt_ms'], op.get('reuse'))
+        elif k == 'create_file':
+            path = os.path.join(self.root, op['rel'])
+            stamp = self.clock.stamp(path, op['dt_ms'])
+            os.makedirs(os.path.dirname(path), exist_ok=True)
+            with open(path, 'w') as f:
+                f.write(op['text'])
+            os.utime(path, ns=(stamp, stamp))
+            self.touch_dirs(path, stamp)
+            self.probes['package_directory_before_init'] += 1
         elif k == 'create':
             for mod in op.get('newmods') or [op['newmod']]:
                 self.current[mod['name']] = mod
@@ -467,6 +533,7 @@ class History(object):
                                 self.fault('edit_during_request')
                     self.fs.hook = hook
                 io0 = self.fs.calls
+                self.clock.request_starts()
                 self.fs.opened.clear()
                 got = ask(server, self.root, req)
                 self.fs.hook = None
